@@ -431,6 +431,15 @@ func (x *exec) staticTypeOfSpecLval(fs *spec.FuncSpec, fn *ssa.Function, c *ssa.
 		// nested value structs are not resolved here (prefix match suffices: use the innermost pointer target)
 		return objKeyPrefix(bt), "." + m.Name, true
 	case *spec.Call:
+		if id, ok := m.Fun.(*spec.Ident); ok && id.Name == "MapOf" && len(m.Args) == 1 {
+			if bt, ok := typeOf(m.Args[0]); ok {
+				if mt, ok := types.Unalias(bt).Underlying().(*types.Map); ok {
+					base := "map<" + typeKey(mt.Key()) + "," + typeKey(mt.Elem()) + ">"
+					return base, "", true
+				}
+			}
+			return "", "", false
+		}
 		if id, ok := m.Fun.(*spec.Ident); ok && id.Name == "Mem" && len(m.Args) == 1 {
 			bt, ok := typeOf(m.Args[0])
 			if !ok {
